@@ -570,9 +570,9 @@ fire("c13-wrapper-skips-checks-when-nested", "C13", B + "bijection.py",
      "        if getattr(_unwrap_check_and_cast, 'depth', 0) > 0:\n            return method(unwrap(bijection), x, condition)\n"
      "        # TODO This can be simplified significantly if we use beartype\n", "C13.exact")
 fire("c12-nontrainable-overrides-recursive-unwrap", "C12", "flowjax/wrappers.py",
-     "    tree: T\n    _dummy: ClassVar[None] = None\n\n    def unwrap(self) -> T:\n        differentiable, static = eqx.partition(self.tree, eqx.is_array_like)",
+     "    tree: T\n    _dummy: ClassVar[None] = None\n\n    def unwrap(self) -> T:\n        differentiable, static = eqx.partition(self.tree, eqx.is_inexact_array)",
      "    tree: T\n    _dummy: ClassVar[None] = None\n\n    def recursive_unwrap(self):\n        return self.unwrap()\n\n"
-     "    def unwrap(self) -> T:\n        differentiable, static = eqx.partition(self.tree, eqx.is_array_like)", "C12.recursive")
+     "    def unwrap(self) -> T:\n        differentiable, static = eqx.partition(self.tree, eqx.is_inexact_array)", "C12.recursive")
 
 # ------------------------------------------------------------------------------ Python closure semantics
 fire("c08-chain-late-binding-closures-in-comprehension", ["C08", "C01"], B + "chain.py",
@@ -625,3 +625,7 @@ silent("c04-benign-affine-broadcast-to-shapes", ["C04", "C02", "C05", "C11"], B 
        "        loc, scale = (arraylike_to_array(a, dtype=float) for a in (loc, scale))\n"
        "        self.shape = jnp.broadcast_shapes(loc.shape, scale.shape)\n"
        "        self.loc = jnp.broadcast_to(loc, self.shape)\n        scale = jnp.broadcast_to(scale, self.shape)")
+fire("c14-nontrainable-unwrap-array-like-filter", "C14", "flowjax/wrappers.py",
+     "        differentiable, static = eqx.partition(self.tree, eqx.is_inexact_array)\n        return eqx.combine(lax.stop_gradient(differentiable), static)",
+     "        differentiable, static = eqx.partition(self.tree, eqx.is_array_like)\n        return eqx.combine(lax.stop_gradient(differentiable), static)",
+     "C14.unwrap-static")
